@@ -138,25 +138,32 @@ def syncLog (c : WCfg) (s : St) : St := fsyncLog (flush c s)
 /-- `_truncate_wl` -/
 def truncateLog (s : St) : St := { s with log := [], fsynced := 0, eff := s.eff ++ [.trunc, .fsync] }
 
-/-- `_savepoint_exl(wal, _, sync)`: the savepoint record is appended and the buffer flushed at once, so the record is
-the last one of its segment -/
+/-- the savepoint record is appended (`_write_wl`) and the buffer flushed at once (`_flush_wl`), so the record is the
+last one of its segment; the history variable notes the image the record stands for -/
+def putSavepoint (c : WCfg) (s : St) (ts : Nat) : St :=
+  let t := writeWl c s (encSavepoint ts) []
+  flush c { t with hist := t.hist ++ [t.view] }
+
+/-- `_savepoint_exl(wal, _, sync)` -/
 def savepoint (c : WCfg) (s : St) (ts : Nat) (sync : Bool) : St :=
-  let s1 := writeWl c { s with forceSp := false } (encSavepoint ts) []
-  let s2 := flush c { s1 with hist := s1.hist ++ [s1.view] }
+  let s2 := putSavepoint c { s with forceSp := false } ts
   if sync then { fsyncLog s2 with synched := true } else s2
 
-/-- `_checkpoint_exl(wal, _, no_fixpoint)` with `bkp_stage = 0`: optional savepoint record, flush + fsync, roll the
-whole log forward over the main file, truncate the log.  A failing roll-forward leaves the log alone (`fatalrc`). -/
-def checkpoint (c : WCfg) (s : St) (noFix : Bool) (ts : Nat) : St :=
-  let s1 := if noFix then s
-    else
-      let t := writeWl c { s with forceCp := false, forceSp := false } (encSavepoint ts) []
-      { t with hist := t.hist ++ [t.view] }
-  let s2 := fsyncLog (flush c s1)
+/-- first half of `_checkpoint_exl(wal, _, no_fixpoint)`: optional savepoint record, `_flush_wl(wal, true)`.
+The state in which `_rollforward_exl` starts to store the log's records into the main file. -/
+def ckptPrepare (c : WCfg) (s : St) (noFix : Bool) (ts : Nat) : St :=
+  fsyncLog (if noFix then flush c s else putSavepoint c { s with forceCp := false, forceSp := false } ts)
+
+/-- second half with `bkp_stage = 0`: `_rollforward_exl(wal, extf, 0)` — the whole log rolled forward over the main
+file, then `_truncate_wl` (an empty log returns early) — and the flags.  A failing roll-forward leaves the log alone (`fatalrc`). -/
+def ckptFinish (c : WCfg) (s2 : St) : St :=
   let o := rollforward c.rd 0 0 s2.log s2.main
   let s3 := if o.rc = .ok then (if s2.log.isEmpty then { s2 with main := o.main } else truncateLog { s2 with main := o.main })
             else { s2 with main := o.main }
   { s3 with mbytes := 0, synched := true }
+
+/-- `_checkpoint_exl(wal, _, no_fixpoint)` -/
+def checkpoint (c : WCfg) (s : St) (noFix : Bool) (ts : Nat) : St := ckptFinish c (ckptPrepare c s noFix ts)
 
 /-- `_onresize` (not applying): the resize record, then a checkpoint **without** a savepoint -/
 def onResize (c : WCfg) (s : St) (osize nsize : Nat) : St := checkpoint c (logResize c s osize nsize) true 0
